@@ -53,7 +53,7 @@ PROPS = {
         rule="events = EEA::encrypt / EIA::gen_mac calls on fresh objects; distinct = distinct (key, count, bearer, direction, length, message); non-trivial = all",
         models=[dict(module="MC_EEA", about="mask / bit-extraction / shift helpers equal their bit-level meaning for every shift and basis word; IV layouts for all bearers/directions")],
         stages=[dict(suite="eea", trace="TraceZUC",
-                     required_classes={"both": ["eea.encrypt/eea.len%32=0", "eea.encrypt/eea.len%32=1", "eea.encrypt/eea.len%32=31", "eia.mac/eia.len0", "eia.mac/eia.len%32=0", "eia.mac/eia.len-other"]})],
+                     required_classes={"both": ["eea.encrypt/eea.len%32=0", "eea.encrypt/eea.len%32=1", "eea.encrypt/eea.len%32=31", "eia.mac/eia.len0", "eia.mac/eia.len%32=0", "eia.mac/eia.len-other", "eea.encrypt/eea.len-other.add31-boundary", "eia.mac/eia.len-other.add31-boundary"]})],
         assumptions=["EEA3.tla transcribes 3GPP TS 35.221 (official test sets as ASSUMEs) over ZUC.tla"],
     ),
     "C03": dict(
@@ -138,7 +138,7 @@ PROPS = {
         models=[dict(module="Rng", about="toy sampler machine: all candidate sequences <= 3 per operation: used scalars are in range, accepted during the operation, one per operation"),
                 dict(module="Rng", cfg="Rng_neg", expect="violation", about="negative: a sampler accepting candidates up to CMax-1 (like c < p-1) must be refuted")],
         stages=[dict(suite="rng", trace="TraceRng", workers=1,
-                     required_classes={"both": ["rng.op/sm2.sign", "rng.op/sm2.keygen", "rng.op/sm2.encrypt", "rng.op/sm2.kx1", "rng.op/sm2.kx2", "rng.op/sm2.sign.injected", "rng.op/sm9.sign", "rng.op/sm9.encrypt", "rng.op/sm9.keygen-sign", "rng.op/sm9.kx1a", "rng.op/sm9.kx1b", "rng.op/sm9.sign.injected", "rng.summary/summary"]})],
+                     required_classes={"both": ["rng.op/sm2.sign", "rng.op/sm2.keygen", "rng.op/sm2.encrypt", "rng.op/sm2.kx1", "rng.op/sm2.kx2", "rng.op/sm2.sign.injected", "rng.op/sm9.sign", "rng.op/sm9.encrypt", "rng.op/sm9.keygen-sign", "rng.op/sm9.kx1a", "rng.op/sm9.kx1b", "rng.op/sm9.sign.injected", "rng.op/sm9.encrypt.retry", "rng.summary/summary"]})],
         assumptions=["bit-unbiasedness is a counting test (8 sigma per bit position); OS seeding is observed only through non-repetition across two processes",
                      "the RNG hook reports every candidate at the point where 32 generator bytes become a candidate"],
     ),
@@ -234,7 +234,7 @@ PROPS = {
         rule="events = pairings evaluated by the library: exact 384-byte comparison with the textbook pairing, bilinearity identities judged against G0^(ab), GT powers; distinct = distinct inputs; non-trivial = all",
         models=[dict(module="AnchorSM9q", anchor=True, workers=1, tier="quick", about="SM9.tla reproduces the GM/T 0044.5 Annex extraction / signature / ciphertext values via the derived evaluator; G0 has order N"), dict(module="AnchorSM9", anchor=True, workers=1, tier="thorough", timeout=900, about="all GM/T 0044.5 Annex values incl. the definitional pairings, decryption and key exchange; G0Const = Pairing(P1,P2)")],
         stages=[dict(suite="sm9pair", trace="TraceSM9", timeout=3400,
-                     required_classes={"both": ["sm9.pairing/pairing.exact.generators", "sm9.pairing/pairing.exact.near-order", "sm9.pairing/pairing.exact.random", "sm9.pairing/pairing.exact.annex-g", "sm9.pairing/pairing.exact.identity-g1",
+                     required_classes={"both": ["sm9.pairing/pairing.exact.generators", "sm9.pairing/pairing.exact.near-order", "sm9.pairing/pairing.exact.random", "sm9.pairing/pairing.exact.annex-g", "sm9.pairing/pairing.exact.identity-g1", "sm9.pairing/pairing.exact.identity-g2",
                                                 "sm9.pair_ident/pairing.bilinear.random", "sm9.pair_ident/pairing.bilinear.near-order", "gt.pow/gt.pow.e=N-2", "gt.pow/gt.pow.sparse"]})],
         assumptions=["BN.tla: textbook R-ate pairing over Fp[w]/(w^12+2), final exponent by definition; anchored by the Annex value of e(P1, Ppub-s) through the signature example"],
     ),
